@@ -139,3 +139,19 @@ Definition get_contig_range (k : N) (segs : list rseg) (start end_ : N) : outcom
           if isize_max <? cap then Panic                          (* "capacity overflow" *)
           else range_loop k segs start end_ segment_ranges []
         end).
+
+(* ------------------------------------------------------------------ vocabulary of the C07 statements
+   wf: every descriptor's raw_length is the length of its decoded segment, and every segment after the
+   first has at least k bases (what C10 later_len_ge_k gives for what the compressor stores). *)
+Definition wf (k : N) (segs : list rseg) : Prop :=
+  Forall (fun s => rs_raw s = lenN (rs_data s)) segs /\
+  Forall (fun s => k <= lenN (rs_data s)) (tl segs).
+Definition wfb (k : N) (segs : list rseg) : bool :=
+  forallb (fun s => rs_raw s =? lenN (rs_data s)) segs &&
+  forallb (fun s => k <=? lenN (rs_data s)) (tl segs).
+(* first segment whole, later segments without their first k bases (the shape of C10's tiling) *)
+Definition tiled (k : N) (segs : list rseg) : list N :=
+  match segs with
+  | [] => []
+  | s0 :: rest => oriented s0 ++ concat (map (fun s => skipnN k (oriented s)) rest)
+  end.
